@@ -112,6 +112,9 @@ func (c ConditionFunction) Evaluate(a interface{}, b interface{}) (bool, error) 
 			return sliceContains(x, y), nil
 		case reflect.Map:
 			return mapContains(x, y), nil
+		case reflect.Ptr:
+			// an optional value is a set with zero or one element
+			return y.IsNil() || (!x.IsNil() && x.Elem().Interface() == y.Elem().Interface()), nil
 		case reflect.Int, reflect.Float64, reflect.Bool, reflect.String:
 			return reflect.DeepEqual(a, b), nil
 		default:
@@ -123,6 +126,9 @@ func (c ConditionFunction) Evaluate(a interface{}, b interface{}) (bool, error) 
 			return !sliceContains(x, y), nil
 		case reflect.Map:
 			return !mapContains(x, y), nil
+		case reflect.Ptr:
+			// an optional value is a set with zero or one element
+			return y.IsNil() || x.IsNil() || x.Elem().Interface() != y.Elem().Interface(), nil
 		case reflect.Int, reflect.Float64, reflect.Bool, reflect.String:
 			return !reflect.DeepEqual(a, b), nil
 		default:
